@@ -1,5 +1,136 @@
+import Casket.Model.Middleware
+import Casket.Spec.Middleware
 import Driver.Proto
-/- Streams of C12 (stub: not built yet). -/
+/-
+Streams of C12.
+  c12.serve   stack  path  ae  inner
+      stack = comma list of the directives present in the site (any order; the real chain is
+              ordered by casket): limits request_id log rewrite gzip header errors:<plain|page404|visible>
+              status mime internal templates
+      path  = html | bin      ae = 1 | 0 (Accept-Encoding: gzip sent)
+      inner = ret:<s>:<0|1> | write:<s|->:<hex>:<0|1> | panic | panicafter:<s|->:<hex>
+      out   = <commits> <status> <body> <followup>
+              body = - | '+' list of <r|g>:<chunk>; chunk inner:<hex> errtext:<s> custom:<s> debugerr debugpanic
+              followup = ok | bad   (a plain request served right after by the same server)
+-/
 namespace Driver.C12
-def streams : List Driver.Stream := []
+open Casket.Mw Casket.MwSpec
+
+def parseMode : String → Option ErrMode
+  | "plain" => some .plain
+  | "page404" => some .page404
+  | "visible" => some .visible
+  | _ => none
+
+def parseStack (s : String) : Option Cfg :=
+  let parts := if s = "" then [] else s.splitOn ","
+  let errs := parts.filter (·.startsWith "errors:")
+  let mode : Option (Option ErrMode) := match errs with
+    | [] => some none
+    | [e] => (parseMode (e.drop 7).toString).map some
+    | _ => none
+  mode.map fun m =>
+    { log := parts.contains "log", gzip := parts.contains "gzip", header := parts.contains "header",
+      errors := m, templates := parts.contains "templates" }
+
+def parseOptNat (s : String) : Option (Option Nat) :=
+  if s = "-" then some none else s.toNat?.map some
+
+def parseInner (s : String) : Option Inner :=
+  match s.splitOn ":" with
+  | ["ret", st, e] => do pure (.ret (← st.toNat?) (e == "1"))
+  | ["write", st, b, e] => do pure (.write (← parseOptNat st) (← Driver.unhex b) (e == "1"))
+  | ["panic"] => some .panicBefore
+  | ["panicafter", st, b] => do pure (.panicAfter (← parseOptNat st) (← Driver.unhex b))
+  | _ => none
+
+structure Case where
+  cfg : Cfg
+  req : Req
+  inner : Inner
+
+def parseCase : List String → Option Case
+  | [st, p, ae, i] => do
+    pure { cfg := ← parseStack st, req := { html := p == "html", ae := ae == "1" }, inner := ← parseInner i }
+  | _ => none
+
+def showChunk : Chunk → String
+  | .inner b => "inner:" ++ Driver.hex b
+  | .errText s => s!"errtext:{s}"
+  | .custom s => s!"custom:{s}"
+  | .debugErr => "debugerr"
+  | .debugPanic => "debugpanic"
+
+def showBody (b : List (Chunk × Bool)) : String :=
+  if b.isEmpty then "-" else "+".intercalate (b.map fun x => (if x.2 then "g:" else "r:") ++ showChunk x.1)
+
+def showResp (r : Resp) : String := s!"{r.commits} {r.status} {showBody r.body}"
+
+def parseChunk (s : String) : Option (Chunk × Bool) :=
+  let enc := s.startsWith "g:"
+  if !(enc || s.startsWith "r:") then none
+  else
+    match ((s.drop 2).toString).splitOn ":" with
+    | ["inner", h] => (Driver.unhex h).map fun b => (.inner b, enc)
+    | ["errtext", n] => n.toNat?.map fun n => (.errText n, enc)
+    | ["custom", n] => n.toNat?.map fun n => (.custom n, enc)
+    | ["debugerr"] => some (.debugErr, enc)
+    | ["debugpanic"] => some (.debugPanic, enc)
+    | _ => none
+
+def parseBody (s : String) : Option (List (Chunk × Bool)) :=
+  if s = "-" then some [] else (s.splitOn "+").mapM parseChunk
+
+def serveModel (f : List String) : String :=
+  match parseCase f with
+  | none => "bad-case"
+  | some c => showResp (serve c.cfg c.req c.inner) ++ " ok"
+
+def serveJudge (f : List String) (out : String) : String :=
+  if out.startsWith "PANIC:" then "bad:not-contained:a panic escaped Server.ServeHTTP"
+  else if (out.splitOn "other:").length > 1 then "bad:body:the body contains bytes that are neither the handler's nor a known error page"
+  else if (out.splitOn "X:").length > 1 then "bad:body:the body is not decodable under its Content-Encoding"
+  else
+  match parseCase f, out.splitOn " " with
+  | some c, [cm, st, body, fu] =>
+    match cm.toNat?, st.toNat?, parseBody body with
+    | some cm, some st, some body =>
+      let v := verdict (effectiveErrors c.cfg) c.inner { commits := cm, status := st, body := body }
+      if v != "ok" then v
+      else if fu != "ok" then "bad:not-contained:the server did not serve the next request correctly"
+      else "ok"
+    | _, _, _ => "bad:unparsable:" ++ out
+  | _, _ => "bad:unparsable:" ++ out
+
+/-- c12.live: the response as an HTTP client sees it (one response head per request by
+framing; a response never committed is net/http's implicit 200) -/
+def liveModel (f : List String) : String :=
+  match parseCase f with
+  | none => "bad-case"
+  | some c =>
+    let r := serve c.cfg c.req c.inner
+    s!"{if r.status = 0 then 200 else r.status} {showBody r.body} ok ok"
+
+def liveJudge (f : List String) (out : String) : String :=
+  if (out.splitOn "ERR:").length > 1 then "bad:not-contained:the client did not get a complete response"
+  else if (out.splitOn "other:").length > 1 then "bad:body:the body contains bytes that are neither the handler's nor a known error page"
+  else if (out.splitOn "X:").length > 1 then "bad:body:the body is not decodable under its Content-Encoding"
+  else
+  match parseCase f, out.splitOn " " with
+  | some c, [st, body, f1, f2] =>
+    match st.toNat?, parseBody body with
+    | some st, some body =>
+      let v := verdict (effectiveErrors c.cfg) c.inner { commits := 1, status := st, body := body }
+      if v != "ok" then v
+      else if f1 != "ok" then "bad:not-contained:the connection did not serve the next request"
+      else if f2 != "ok" then "bad:not-contained:the server did not serve a new connection"
+      else "ok"
+    | _, _ => "bad:unparsable:" ++ out
+  | _, _ => "bad:unparsable:" ++ out
+
+def streams : List Driver.Stream := [
+  { name := "c12.serve", model := serveModel, judge := serveJudge },
+  { name := "c12.live", model := liveModel, judge := liveJudge }
+]
+
 end Driver.C12
